@@ -9,7 +9,7 @@
     state digest (SHA-256 of the pickle) of an idle bandit and of the policy tuples it was built from must not
     change; it is checked after every single call on the others, so the witness names the call that leaked.
 
-As built: Scenario extras: warm starts with an exact tie between trained arms (string labels), trees created by add_arm and trained on tie-rich data, LinTS on huge nearly collinear contexts, bystander bandits that add / remove arms although a distribution is configured.
+As built: Scenario extras: warm starts with an exact tie between trained arms (string labels), trees created by add_arm and trained on tie-rich data, LinTS on huge nearly collinear contexts, bystander bandits that add / remove arms although a distribution is configured; hostile neighbours (same training data, arm features one coordinate off by one, values -1 / -2).
 """
 from mon import env
 import copy
@@ -31,7 +31,7 @@ RULE = ("48 policy combinations x seeds {0, 7, 123456, 2^31-1, random} x scenari
         "interleaved other bandits sharing the policy tuple objects (PYTHONHASHSEED=1 or random); plus the idle-bandit digest "
         "invariant after every call on the other bandits. Non-trivial = scenario of a randomised policy, or one sharing a "
         "policy-tuple object with an interleaved bandit; distinct = (combo, seed, labels, scenario skeleton)")
-BUDGET = {"quick": {"cases": 72, "shards": 16}, "thorough": {"cases": 48 * 12, "shards": 16, "wall_s": 2700}}
+BUDGET = {"quick": {"cases": 144, "shards": 16}, "thorough": {"cases": 48 * 12, "shards": 16, "wall_s": 2700}}
 MIN = {"quick": {"evaluations": 200, "nontrivial": 40, "counters": {"fresh_interpreters": 100, "idle_digest_checks": 500}},
        "thorough": {"evaluations": 1500, "nontrivial": 250, "counters": {"fresh_interpreters": 1000, "idle_digest_checks": 3000}}}
 ASSUMPTIONS = ["OMP/BLAS threads pinned to 1 (k-means reductions are not run-to-run deterministic otherwise)",
@@ -93,7 +93,23 @@ def run_case(rs, ctx):
         rs, cfg, sh, int(rs.integers(5, 10)),
         ["partial_fit", "predict", "predict_expectations", "predict", "add_arm", "remove_arm", "warm_start", "fit"]) + \
         gen.gen_ops(rs, cfg, sh, 2, ["predict_expectations", "predict"])
-    if p == "none" and l != "rnd" and len(cfg["arms"]) >= 3 and rs.integers(3) > 0:
+    hostile = None
+    variant = int(rs.integers(3))
+    if p == "none" and l != "rnd" and len(cfg["arms"]) >= 3 and variant == 2:
+        # hostile neighbours: the other bandits of the process are given the *same* training data and nearly the same arm
+        # features (one coordinate off by one; values include -1 / -2, which CPython hashes alike): any process-wide memo or
+        # cache keyed by something lossy shows up as a different warm start
+        cold = cfg["arms"][-1]
+        trained = cfg["arms"][:-1]
+        ops[0]["d"] = [a if a != cold else gen.pick(rs, trained) for a in ops[0]["d"]]
+        ops[0]["d"][:len(trained)] = list(trained)
+        vals = [-2.0, -1.0, -1.0, -2.0, 0.0, 1.0, 3.0]
+        feats = [[a, [gen.pick(rs, vals), gen.pick(rs, vals)]] for a in cfg["arms"]]
+        ws = {"op": "warm_start", "features": feats, "q": 1.0}
+        ops = [ops[0], ws] + [o for o in ops[1:] if o["op"] not in ("fit", "remove_arm")]
+        hostile = (copy.deepcopy(ops[0]), feats, trained)
+        ctx.count("hostile_neighbour_scenarios")
+    if p == "none" and l != "rnd" and len(cfg["arms"]) >= 3 and variant == 1:
         # a warm start whose nearest trained arm is not unique (identical feature vectors, different learned state): any
         # tie-break that depends on set / hash order shows up across interpreters with different hash seeds
         cold = cfg["arms"][-1]
@@ -128,6 +144,14 @@ def run_case(rs, ctx):
             if o.get("X") is not None:
                 o["X"] = [[1.7e9 + 97.0 * j + float(v) * float(rs.integers(1, 200)) for j, v in enumerate(row)] for row in o["X"]]
     others = [gen_other(rs, cfg, same_kind=(j < 2)) for j in range(int(rs.integers(3, 6)))]
+    if hostile:
+        for o in others[:2]:
+            pf = copy.deepcopy(hostile[1])
+            victim = gen.pick(rs, hostile[2])
+            for a, f_ in pf:
+                if a == victim:
+                    f_[int(rs.integers(2))] += float(gen.pick(rs, [-1.0, 1.0]))
+            o["ops"] = [copy.deepcopy(hostile[0]), {"op": "warm_start", "features": pf, "q": 1.0}] + o["ops"]
     wit = {"cfg": cfg, "ops": ops, "others": [{"cfg": o["cfg"], "ops": [gen.short(x) for x in o["ops"]],
                                                 "reuse_policy_objects": o["reuse_policy_objects"]} for o in others]}
     # (a) in-process, alone
